@@ -777,6 +777,11 @@ func (ex *Exec) scanValue(fr *frame, v ssa.Value) Value {
 		return &scanCell{}
 	case *ssa.UnOp:
 		if x.Op == token.MUL {
+			if g, isG := x.X.(*ssa.Global); isG {
+				if f := ex.eng.constFuncGlobal(g); f != nil {
+					return &FuncVal{fn: f}
+				}
+			}
 			switch c := ex.scanValue(fr, x.X).(type) {
 			case *scanCell:
 				return c.content
